@@ -833,8 +833,30 @@ def c04(ctx):
                 else: ops.append(hg.push(0))
             ops.append(('probe', 0))
             cases.append((name, ops)); note_case(res, name, ops)
-    def utf8_clause(t, op, g, ref, sc):
-        return None
+    # dictionary-coded strings: the empty string and every trained string pushed again after the representation switch
+    # (merge_regions), with few and with more than 128 dictionary entries (tags beyond 0x7f are not valid UTF-8 on their own)
+    for name, e in pick_entries(lambda nm, e: contains(e, 'cdc') and (contains(e, 'str') or contains(e, 'strof'))):
+        sh = shape(e)
+        def wrap(b):
+            # a value of the entry's shape holding the byte string b
+            def go(sh_):
+                if sh_[0] == 'str': return list(b)
+                if sh_[0] == 'list': return [go(sh_[1])]
+                if sh_[0] == 'tup': return [go(t_) for t_ in sh_[1]]
+                return gen.ValueGen(ctx.rng).gen(sh_)
+            return go(sh)
+        small = [b'', b'ab', b'\xc3\xa9t\xc3\xa9', b'z', b'']
+        large = [b'z%03d' % i for i in range(140)]
+        for train in ([x for x in small for _ in range(3)], [x for x in large for _ in range(2)] + [b'']):
+            ops = [('push', 0, 0, wrap(b)) for b in train] + [('merge', 1, [0])]
+            trained = set(train)
+            for b in [b'', b'z', large[0], large[139], b'']:
+                if b in trained: ops += [('push', 1, 0, wrap(b))]
+            ops += [('probe', 1), ('merge', 2, [1, 0]), ('push', 2, 0, wrap(b''))]
+            ops += [('push', 2, 0, wrap(train[1])), ('probe', 2)]
+            # a string outside the dictionary (may legitimately be refused when it starts with an assigned tag: the history ends there)
+            ops += [('push', 1, 0, wrap(b'ab')), ('probe', 1)]
+            cases.append((name, ops)); note_case(res, name, ops)
     run_regions(ctx, res, cases, lambda e, ops, obs, mo=None: ref_oracle(e, ops, obs, (), mo), 'values')
     found, fails = src_inventory_c04()
     res.extra['source_inventory'] = found
@@ -1491,7 +1513,7 @@ def c17(ctx):
             ops += [('heap', 0), ('allocs', 0)] + [('push', 0, f, v) for v in batch] + [('allocs', 0), ('heap', 0), ('probe', 0)]
             cases.append((name, ops)); note_case(res, name, ops)
     import math
-    K = 8 if not ctx.thorough else 14
+    K = 8 if not ctx.thorough else 12   # 2^14 pushes per entry made the list-based model quadratic for half an hour
     for name, e in ENTRIES:
         if is_known_bad(e) or coded(e): continue   # the logarithmic bound is stated for non-coded regions
         for k in range(6, K + 1, 2):
